@@ -378,6 +378,21 @@ func c02(r *Run) {
 					if _, isOrigin := loadOfField(fa.X, "linkBufferNode", "origin"); isOrigin {
 						okRoot = true
 					}
+					// ... or the very value that is linked in as the new node's root ("origin := ...; p.origin = origin;
+					// AddInt32(&origin.refer, 1)")
+					// (every store of the root must be that value: "p.origin = node" on one branch and a count on node is the bug)
+					nSt, nSame := 0, 0
+					forEachIns(nodeRefer, func(j ssa.Instruction) {
+						if st, ok := j.(*ssa.Store); ok && isStoreToField(j, "linkBufferNode", "origin") {
+							nSt++
+							if st.Val == fa.X {
+								nSame++
+							}
+						}
+					})
+					if nSt > 0 && nSt == nSame {
+						okRoot = true
+					}
 				}
 			}
 		})
